@@ -196,8 +196,9 @@ def c11(tier, seed):
                     for c in ("k = 0", "k = n+1", "k = 64", "k = usize::MAX"):
                         covers[c] = "SATISFIED"
                     covers["k in range"] = "SATISFIED" if n >= 1 else "UNSAT"
+                q2 = q or (kind == "s" and n <= 10 and op != "parity_majority")
                 out.append(spec("verif_c11", "c11.rs", macro, "c11_%s_%s" % (op, fam), [fam], u,
-                                tier="quick" if q else "thorough", n=n, fam=fam,
+                                tier="quick" if q2 else "thorough", n=n, fam=fam,
                                 mem=mem_for(n), timeout=900 if n <= 8 else 3000,
                                 covers=covers,
                                 what="%s on %s n=%d: symbolic assignment m, parameter (k / c / i) over ALL usize values; value(m) equals the definition via popcount(m); wf"
@@ -513,7 +514,8 @@ def c10(tier, seed):
                         what="Lut%d: Lut::from(a) has %d variables and the same blocks; Lut%d::try_from is its inverse; try_from(Lut of any other size 0..13) is Err without panicking" % (n, n, n)))
         for (lo, hi, label) in ((0, 12, "logic"), (30, 43, "forms"), (20, 22, "flipswap"), (22, 27, "cofactors")):
             out.append(spec("verif_c10", "c10.rs", "c10_ops", "c10_ops_%s_%s" % (label, fam), [fam, lo, hi], 8 * T(n) + 2,
-                            tier=tr, n=n, fam=fam, mem=mem_for(n, 1.5), timeout=1200 if q else 3600, optional=(n >= 11),
+                            tier=tr, n=n, fam=fam, mem=mem_for(n, 2.5), timeout=1200 if q else 3600, optional=(n >= 9),
+                            mem_limit_gb=14 if n <= 8 else 30,
                             covers={"reached": "SATISFIED", "last arm": "SATISFIED"},
                             what="Lut%d vs Lut [%s]: not/and/or/xor (named + operator forms), value, cmp/==, set_value | flip, swap | swap_adjacent, cofactors, from_cofactors, top_decomposition, unateness give corresponding results on the same symbolic function and arguments" % (n, label)))
         out.append(spec("verif_c10", "c10.rs", "c10_ctors", "c10_ctors_%s" % fam, [fam], max(8 * T(n), n, 8) + 2,
@@ -606,7 +608,7 @@ def c13(tier, seed):
         can_true = any(k not in (0, 4) for k in ks)
         can_false = all(k not in (1, 5) for k in ks) and not (n >= 1 and any(ks[a] == 2 and ks[b] == 3 for a in range(4) for b in range(4)) and False)
         out.append(spec("verif_c13", "c13.rs", "c13_soes", name, [n] + ks,
-                        (1 << n) + 3, tier="quick" if q else "thorough", n=n, fam="Soes", timeout=2400,
+                        max((1 << n) + 3, 36 if any(k >= 4 for k in ks) else 0), tier="quick" if q else "thorough", n=n, fam="Soes", timeout=2400,
                         mem=2 if n >= 6 else 1,
                         covers={"reached": "SATISFIED", "evaluates to true": "SATISFIED" if can_true else "UNSAT",
                                 "evaluates to false": "SATISFIED" if can_false else "UNSAT"},
@@ -673,7 +675,7 @@ def c19(tier, seed):
     for kind in ("s", "d"):
         tname = "LutN" if kind == "s" else "Lut"
         for n in range(0, 13):
-            q = (n <= 8) if kind == "s" else (n in quick_dyn)
+            q = True if kind == "s" else (n in quick_dyn)
             fam = fam_name(kind, n)
             claims = {"constant one reachable": "SATISFIED", "constant zero reachable": "SATISFIED",
                       "two calls can differ": "SATISFIED"}
